@@ -82,7 +82,7 @@ def analyse(path):
     ctx = Ctx(path)
     base = os.path.basename(path)
     facts = {"statics": [], "writes": [], "calls": [], "arrays": [], "array_writes": [], "enum": [], "messages": None,
-             "formats": [], "conversions": []}
+             "formats": [], "conversions": [], "enumrefs": {}, "cmpstrings": {}}
     statics = {}   # id -> name
     for top in children(tu):
         inrepo = ctx.in_src(top)
@@ -129,6 +129,10 @@ def analyse(path):
                     if m:
                         local_arrays[x["id"]] = (x["name"], int(m.group(2)))
                         facts["arrays"].append({"func": fname, "name": x["name"], "size": int(m.group(2)), "file": base})
+                if k == "DeclRefExpr":
+                    d = x.get("referencedDecl", {})
+                    if d.get("kind") == "EnumConstantDecl" and d.get("name", "").startswith("ECONF_"):
+                        facts["enumrefs"].setdefault(fname, set()).add(d["name"])
                 if k == "CallExpr":
                     ch = children(x)
                     callee = None
@@ -140,6 +144,10 @@ def analyse(path):
                     if callee:
                         facts["calls"].append((fname, callee))
                         args = ch[1:]
+                        if callee in ("strcmp", "strncmp"):
+                            for lit in string_literals(x):
+                                if isinstance(lit, str):
+                                    facts["cmpstrings"].setdefault(fname, set()).add(lit)
                         if callee in WRITERS and args:
                             tname, tid = first_ref(args[0])
                             if tname is not None:
@@ -257,6 +265,30 @@ def generate():
     L.append("def arrayWrites : List ArrayWrite := [" + ", ".join(
         "⟨%s, %s, %s, %s, %s⟩" % (lean_str(w["file"]), lean_str(w["func"]), lean_str(w["target"]), lean_str(w["call"]), str(w["call"] in BOUNDED).lower())
         for w in sorted(aw, key=lambda x: (x["file"], x["func"], x["target"], x["call"]))) + "]\n")
+    def lean_bytes(t):
+        return "[" + ", ".join("0x%02x" % b for b in t.encode("latin-1", "replace")) + "]"
+    # string macros of the library sources (#define NAME "text")
+    macros = {}
+    for path in sorted(glob.glob(os.path.join(REPO, "lib", "*.h")) + glob.glob(os.path.join(REPO, "lib", "*.c"))):
+        for m in re.finditer(r'^[ \t]*#[ \t]*define[ \t]+([A-Z_][A-Z0-9_]*)[ \t]+"((?:[^"\\\\]|\\\\.)*)"[ \t]*$', open(path).read(), re.M):
+            macros[m.group(1)] = bytes(m.group(2), "latin-1").decode("unicode_escape")
+    L.append("/-- string macros (`#define NAME \"text\"`) of lib/, as bytes -/")
+    L.append("def stringMacros : List (String × List UInt8) := [" + ", ".join(
+        "(%s, %s)" % (lean_str(k), lean_bytes(v)) for k, v in sorted(macros.items())) + "]\n")
+    enumrefs, cmpstrings = {}, {}
+    for base, f in results:
+        for fn, names in f["enumrefs"].items():
+            enumrefs[(base, fn)] = sorted(names)
+        for fn, lits in f["cmpstrings"].items():
+            cmpstrings[(base, fn)] = sorted(lits)
+    L.append("/-- error constants referenced per function (file, function, constants) -/")
+    L.append("def errRefs : List (String × String × List String) := [" + ", ".join(
+        "(%s, %s, [%s])" % (lean_str(b), lean_str(fn), ", ".join(lean_str(n) for n in names))
+        for (b, fn), names in sorted(enumrefs.items()) if b != "econftool.c") + "]\n")
+    L.append("/-- string literals compared with strcmp/strncmp per function, as bytes -/")
+    L.append("def cmpStrings : List (String × String × List (List UInt8)) := [" + ", ".join(
+        "(%s, %s, [%s])" % (lean_str(b), lean_str(fn), ", ".join(lean_bytes(n) for n in lits))
+        for (b, fn), lits in sorted(cmpstrings.items()) if b != "econftool.c") + "]\n")
     L.append("end Generated")
     text = "\n".join(L) + "\n"
     old = open(OUT).read() if os.path.exists(OUT) else None
